@@ -1229,7 +1229,9 @@ package larking
 //@   assert at "return io.EOF" [end-of-stream-only-after-a-normal-closure C06] NormalClosure(err)
 //@   assert at "return err" [a-failed-read-is-never-a-clean-end C06] err != io.EOF
 //@   returns (err)
-//@   ensures [no-phantom-message-without-a-body C06] !s.method.hasBody && old(s.recvN) >= 1 ==> err != nil
+// (assumed: fewer than 2^62 receive calls on one stream, so that the call counter does not wrap)
+//@   requires 0 <= s.recvN && s.recvN < 4611686018427387904
+//@   ensures [no-phantom-message-without-a-body C06] !old(s.method.hasBody) && old(s.recvN) >= 1 ==> err == io.EOF
 //@   witness verifWitnessWSNoBody for no-phantom-message
 //@   witness verifWitnessWSEndOfStream for a-normal-closure
 //@   witness verifWitnessWSEndOfStream for a-failed-read
